@@ -34,6 +34,11 @@ pub enum Kind {
     /// provides Collect impls for (tuples first / last / nested, arrays, Box, Rc, LinkedList,
     /// VecDeque, BinaryHeap, BTreeMap key and value, BTreeSet, HashMap, nested Option, Result::Err)
     Bag,
+    /// `Gc<[Edge]>` made by `Gc::new_slice` (the copy path): its edges are given at allocation and
+    /// never change
+    CopySlice { len: u8 },
+    /// `SliceWithHeader<CopyHead, Edge>` completed with `copy_slice`: slot 0 in the header
+    CopySwh { len: u8 },
 }
 
 impl Kind {
@@ -52,6 +57,8 @@ impl Kind {
             Kind::Swh { len } => 1 + len as usize,
             Kind::Lay { .. } | Kind::Built { .. } | Kind::ZstShared => 0,
             Kind::Bag => BAG_STRONG,
+            Kind::CopySlice { len } => len as usize,
+            Kind::CopySwh { len } => 1 + len as usize,
         }
     }
     pub fn n_weak(self) -> usize {
@@ -68,12 +75,12 @@ impl Kind {
     /// strong slots an op may write
     pub fn writable_strong(self) -> usize {
         match self {
-            Kind::SetHolder | Kind::SetInner => 0,
+            Kind::SetHolder | Kind::SetInner | Kind::CopySlice { .. } | Kind::CopySwh { .. } => 0,
             k => k.n_strong(),
         }
     }
     pub fn has_tok(self) -> bool {
-        !matches!(self, Kind::Cell | Kind::Once | Kind::LeafLock | Kind::SetInner | Kind::Slice { .. } | Kind::Lay { .. } | Kind::ZstShared)
+        !matches!(self, Kind::Cell | Kind::Once | Kind::LeafLock | Kind::SetInner | Kind::Slice { .. } | Kind::Lay { .. } | Kind::ZstShared | Kind::CopySlice { .. })
     }
     pub fn needs_trace(self) -> bool {
         !matches!(self, Kind::Leaf | Kind::LeafLock | Kind::LeafStatic | Kind::Lay { .. } | Kind::Built { .. } | Kind::ZstShared)
@@ -265,6 +272,10 @@ pub enum Op {
     /// convert a pointer through a chain of representations and back, checking identity and
     /// contents at every step; nothing is stored
     Convert { obj: Id, chain: Vec<Conv> },
+    /// an immutable edge-carrying object made through the copy path (`Gc::new_slice`, or a
+    /// slice-with-header builder finished with `copy_slice`): `children` are the edges it is born
+    /// with (slot 0 goes into the header when `header`)
+    AllocCopy { id: Id, children: Vec<Option<Id>>, header: bool },
     /// a DynamicRoot handle cloned or dropped by client code inside the callback (of its own
     /// arena or of another one)
     HandleIn { h: Hid, op: HandleOp },
